@@ -39,6 +39,7 @@ use radix_engine::transaction::*;
 use radix_engine::vm::wasm::{DefaultWasmEngine, WasmRuntimeError};
 use radix_engine::vm::*;
 use radix_engine_interface::blueprints::package::*;
+use radix_blueprint_schema_init::RefTypes;
 use radix_engine_interface::prelude::*;
 use radix_substate_store_impls::memory_db::InMemorySubstateDatabase;
 use radix_transactions::manifest::*;
@@ -393,6 +394,38 @@ struct Gen<'a> {
     confuse: bool,
 }
 
+fn vk(v: &ManifestValue) -> ManifestValueKind {
+    match v {
+        Value::Bool { .. } => ValueKind::Bool,
+        Value::I8 { .. } => ValueKind::I8,
+        Value::I16 { .. } => ValueKind::I16,
+        Value::I32 { .. } => ValueKind::I32,
+        Value::I64 { .. } => ValueKind::I64,
+        Value::I128 { .. } => ValueKind::I128,
+        Value::U8 { .. } => ValueKind::U8,
+        Value::U16 { .. } => ValueKind::U16,
+        Value::U32 { .. } => ValueKind::U32,
+        Value::U64 { .. } => ValueKind::U64,
+        Value::U128 { .. } => ValueKind::U128,
+        Value::String { .. } => ValueKind::String,
+        Value::Enum { .. } => ValueKind::Enum,
+        Value::Array { .. } => ValueKind::Array,
+        Value::Tuple { .. } => ValueKind::Tuple,
+        Value::Map { .. } => ValueKind::Map,
+        Value::Custom { value } => ValueKind::Custom(match value {
+            ManifestCustomValue::Address(_) => ManifestCustomValueKind::Address,
+            ManifestCustomValue::Bucket(_) => ManifestCustomValueKind::Bucket,
+            ManifestCustomValue::Proof(_) => ManifestCustomValueKind::Proof,
+            ManifestCustomValue::Expression(_) => ManifestCustomValueKind::Expression,
+            ManifestCustomValue::Blob(_) => ManifestCustomValueKind::Blob,
+            ManifestCustomValue::Decimal(_) => ManifestCustomValueKind::Decimal,
+            ManifestCustomValue::PreciseDecimal(_) => ManifestCustomValueKind::PreciseDecimal,
+            ManifestCustomValue::NonFungibleLocalId(_) => ManifestCustomValueKind::NonFungibleLocalId,
+            ManifestCustomValue::AddressReservation(_) => ManifestCustomValueKind::AddressReservation,
+        }),
+    }
+}
+
 fn mv<T: ManifestEncode>(v: &T) -> ManifestValue {
     manifest_decode::<ManifestValue>(&manifest_encode(v).unwrap()).unwrap()
 }
@@ -510,10 +543,10 @@ impl<'a> Gen<'a> {
                 let n = *self.rng.pick(&[0usize, 0, 1, 2, 3]);
                 let elems: Vec<ManifestValue> = (0..n).map(|_| self.value(schema, element_type, depth + 1)).collect();
                 let ek = match elems.first() {
-                    Some(e) => e.get_value_kind(),
+                    Some(e) => vk(e),
                     None => self.kind_of(schema, element_type),
                 };
-                if elems.iter().any(|e| e.get_value_kind() != ek) {
+                if elems.iter().any(|e| vk(e) != ek) {
                     return ManifestValue::Array { element_value_kind: ek, elements: vec![] };
                 }
                 ManifestValue::Array { element_value_kind: ek, elements: elems }
@@ -547,16 +580,16 @@ impl<'a> Gen<'a> {
             TypeKind::Map { key_type, value_type } => {
                 let n = *self.rng.pick(&[0usize, 0, 1, 2]);
                 let kk = self.kind_of(schema, key_type);
-                let vk = self.kind_of(schema, value_type);
+                let vkind = self.kind_of(schema, value_type);
                 let mut entries: Vec<(ManifestValue, ManifestValue)> = vec![];
                 for _ in 0..n {
                     let k = self.value(schema, key_type, depth + 1);
                     let v = self.value(schema, value_type, depth + 1);
-                    if k.get_value_kind() == kk && v.get_value_kind() == vk && !entries.iter().any(|e| e.0 == k) {
+                    if vk(&k) == kk && vk(&v) == vkind && !entries.iter().any(|e| e.0 == k) {
                         entries.push((k, v));
                     }
                 }
-                ManifestValue::Map { key_value_kind: kk, value_value_kind: vk, entries }
+                ManifestValue::Map { key_value_kind: kk, value_value_kind: vkind, entries }
             }
             TypeKind::Custom(ScryptoCustomTypeKind::Decimal) => {
                 let d = self.decimal();
@@ -627,7 +660,7 @@ impl<'a> Gen<'a> {
         let v = self.value(schema, ty, 6);
         *self.rng = saved;
         self.confuse = was;
-        v.get_value_kind()
+        vk(&v)
     }
 }
 
